@@ -261,6 +261,21 @@ def rendezvous() -> None:
     th.blocked_on = None
 
 
+_TICK = [0]
+
+
+def tick() -> int:
+    """Logical clock shared by the scenario threads (exactly one of them runs at any time)."""
+    _TICK[0] += 1
+    return _TICK[0]
+
+
+def me_tid() -> int:
+    s = SCHED
+    th = s.me() if s is not None else None
+    return th.tid if th is not None else -1
+
+
 def pause_value(v):
     """pause(), then hand the value through: a scheduling point in the middle of the evaluation of an argument list."""
     pause()
